@@ -161,7 +161,7 @@ static const uint8_t BIN_00FF[] = { 0x00, 0xff, 0x00, 0x80 };
 
 enum { D_VERSION, D_NUMROWS, D_NSCHEMA, D_NAME, D_TYPE, D_REP, D_CONV, D_FIELDID, D_LOGICAL, D_NRG, D_NCOLS, D_CHUNK, D_CMINTS, D_NENC, D_NPATH,
        D_CODEC, D_OPTOFF, D_STATS, D_KV, D_CREATED, D_RGOPT, D_CHIDX, D_COLKV, D_ENCSTATS, NDIM };
-static const int DSZ[NDIM] = { 6, 6, 5, 4, 5, 4, 5, 5, 20, 3, 3, 4, 6, 5, 5, 6, 4, 9, 5, 4, 5, 3, 3, 3 };
+static const int DSZ[NDIM] = { 6, 6, 5, 4, 5, 4, 5, 5, 20, 3, 3, 4, 6, 7, 7, 6, 4, 9, 5, 4, 5, 3, 3, 3 };
 static const char* DNAME[NDIM] = { "version", "num_rows", "schema_size", "name", "type", "repetition", "converted", "field_id", "logical", "row_groups", "columns", "chunk",
                                    "colmeta_ints", "n_encodings", "n_path", "codec", "opt_offsets", "statistics", "key_value", "created_by", "rg_optional", "chunk_index", "col_kv", "encoding_stats" };
 
@@ -235,7 +235,7 @@ static void build_file(const int* ch, ref_file_meta* m) {
             else if (ch[D_CHIDX] == 2) { k->has_oi_offset = true; k->oi_offset = INT64_MIN; k->has_ci_length = true; k->ci_length = INT32_MIN; }
             k->has_meta = true; ref_col_meta* cm = &k->meta;
             cm->type = 1;
-            static const int NL[] = { 1, 0, 14, 15, 16 };
+            static const int NL[] = { 1, 0, 14, 15, 16, 99, 100 };       /* 100 = the parser's documented maximum for these lists */
             cm->n_enc = NL[ch[D_NENC]]; cm->encodings = ref_alloc(&RA, 4 * (size_t)(cm->n_enc + 1)); for (int i = 0; i < cm->n_enc; i++) cm->encodings[i] = (i % 3 == 0) ? 0 : (i % 3 == 1) ? 3 : 8;
             cm->n_path = NL[ch[D_NPATH]]; cm->path = ref_alloc(&RA, sizeof(ref_bin) * (size_t)(cm->n_path + 1)); for (int i = 0; i < cm->n_path; i++) cm->path[i] = B(i % 2 ? "" : "p");
             static const int32_t CD[] = { 0, 1, 6, 7, -1, 100 };
@@ -486,7 +486,7 @@ static bool ref_eq_file_rt(const ref_file_meta* d, const ref_file_meta* m) {   /
 }
 
 /* unknown-field payloads of every wire type */
-#define NPAYLOAD 16
+#define NPAYLOAD 18
 static ref_tval payload(int k) {
     ref_tval v; memset(&v, 0, sizeof v);
     switch (k) {
@@ -508,11 +508,13 @@ static ref_tval payload(int k) {
                ref_tval l = ref_t_list(&RA, RT_STRUCT, 2); l.items[0] = in; l.items[1] = ref_t_struct(&RA, 1);
                v = ref_t_struct(&RA, 3); ref_t_add(&RA, &v, 1, in); ref_t_add(&RA, &v, 2, l); ref_t_add(&RA, &v, 100, ref_t_bin("z", 1)); return v; }
     case 14: v.type = RT_UUID; for (int i = 0; i < 16; i++) v.raw[i] = (uint8_t)(i * 17); return v;
+    case 16: case 17: { int depth = k == 16 ? 12 : 20; v = ref_t_struct(&RA, 1); ref_t_add(&RA, &v, 1, ref_t_i(RT_I32, 7));      /* structs nested 12 / 20 deep (the decoder's nesting limit is 32) */
+               for (int d = 1; d < depth; d++) { ref_tval o = ref_t_struct(&RA, 2); ref_t_add(&RA, &o, 2, v); ref_t_add(&RA, &o, 3, ref_t_bool(d & 1)); v = o; } return v; }
     default: { ref_tval inner = ref_t_list(&RA, RT_I32, 2); inner.items[0] = ref_t_i(RT_I32, 1); inner.items[1] = ref_t_i(RT_I32, 2);
                v = ref_t_list(&RA, RT_LIST, 2); v.items[0] = inner; v.items[1] = ref_t_list(&RA, RT_I32, 0); return v; }
     }
 }
-static const char* PNAME[NPAYLOAD] = { "bool-true", "bool-false", "byte", "i16", "i32", "i64", "double", "binary", "list-i32-17", "list-bool", "set-binary", "map-i32-binary", "map-empty", "struct-nested", "uuid", "list-of-lists" };
+static const char* PNAME[NPAYLOAD] = { "bool-true", "bool-false", "byte", "i16", "i32", "i64", "double", "binary", "list-i32-17", "list-bool", "set-binary", "map-i32-binary", "map-empty", "struct-nested", "uuid", "list-of-lists", "structs-nested-12-deep", "structs-nested-20-deep" };
 
 static void check_file_structure(const int* ch, int ndev) {
     ref_file_meta m; build_file(ch, &m);
